@@ -55,6 +55,7 @@ type Exec struct {
 	safeCount   map[string]int
 	errs        []string
 	paramObs    []Observable
+	retCount    int
 	usedAsserts map[string]bool
 	topFrame    *Frame
 	cellPtr     map[string]Val // local cells holding interior pointers
